@@ -108,6 +108,14 @@ func newC04(tier string) run.Job {
 			j.ds.pristine[m] = append(j.ds.pristine[m], gen.Clone(cp))
 		}
 	}
+	// the working copies get spare capacity in every array (a write beyond the length of a caller's
+	// array is a write to caller data as well)
+	j.ds.spare = true
+	for _, m := range modes {
+		for i := range j.ds.docs[m] {
+			j.ds.docs[m][i] = withSpare(j.ds.docs[m][i])
+		}
+	}
 	// plus the ordinary ladders (any step kind may write)
 	j.ladder = unitsOf([]gen.Ladder{{Alpha: gen.SigmaFull(), Depth: 2, Funcs: gen.FuncSuffixes(), FuncDepth: 1}})
 	return j
@@ -207,17 +215,20 @@ func (j *c04Job) RunUnit(i int, c *run.Ctx) {
 					if k == 1 {
 						cfg, cfgName = &j.env.CfgAcc, "accessor"
 					}
-					fdoc := gen.Clone(j.ds.pristine[m][di])
+					fdoc := withSpare(gen.Clone(j.ds.pristine[m][di]))
 					fp := impl.Parse(text, cfg)
 					impl.Call(fp.F, fdoc)
-					if sameJSON(fdoc, j.ds.pristine[m][di]) {
+					if sameJSON(fdoc, j.ds.pristine[m][di]) && !spareDirty(fdoc) {
 						c.Add("history_dependence_seen", 1)
 						continue
 					}
 					cs := caseOfP("C04", p, text, j.ds.text[di], m, cfgName)
+					if spareDirty(fdoc) {
+						cs["spare"] = true
+					}
 					c.Violate(run.Violation{
 						Sig:    "source-modified:" + gen.Shape(p),
-						Detail: fmt.Sprintf("%s (%s mode) on %s (%s): the caller's document is %s after the call", text, cfgName, j.ds.text[di], modeName[m], showVal(fdoc)),
+						Detail: fmt.Sprintf("%s (%s mode) on %s (%s): the caller's document is %s after the call%s", text, cfgName, j.ds.text[di], modeName[m], showVal(fdoc), map[bool]string{true: " and values were written beyond the length of one of its arrays (into the spare capacity)", false: ""}[spareDirty(fdoc)]),
 						Size:   len(text)*100 + len(j.ds.text[di]),
 						Case:   cs,
 					})
@@ -237,6 +248,7 @@ func init() {
 		Rule:  "every (path, document, mode in {plain, accessor without Set}) is one execution; the document is compared structurally with an untouched copy after every call, success or failure; non-trivial = the call succeeds",
 		Assumptions: []string{
 			"before each path sync.Pool is emptied (two garbage collections), so pooled buffers start small as in a fresh process",
+			"every array of the working documents has spare capacity (cap = 2*len+2) whose slots must still be nil after the call",
 			"deep structural comparison with a pristine copy built before the call; a difference is confirmed on a fresh document with a fresh Parse before it is reported",
 			"every user function the retrieval calls compares the caller's document with the pristine copy at that moment (a write that is undone before the call returns is still a write to caller data)",
 			"the clause about sharing one document between goroutines is explored by C06",
@@ -285,7 +297,11 @@ func init() {
 					env.Observe = nil
 					return during != "", "document as seen by a user function during the call: " + during
 				}
+				doc = withSpare(doc)
 				impl.Call(pr.F, doc)
+				if spareDirty(doc) {
+					return true, "the call wrote beyond the length of one of the caller's arrays (into its spare capacity)"
+				}
 				return !sameJSON(doc, before), "document after the call: " + showVal(doc)
 			})
 		},
